@@ -19,6 +19,8 @@ import (
 	"fmt"
 	"math/rand"
 	"net"
+	"runtime"
+	"strings"
 	"sync"
 	"time"
 
@@ -29,8 +31,9 @@ const (
 	kaPingOk = iota
 	kaPingFail
 	kaClose
-	kaReturn
+	kaReturn // the loop is over: the goroutine returned; in e2e runs: the session has ended (+ grace)
 	kaPanic
+	kaCloseOther // e2e: transport.Close called by somebody else than the keep-alive loop (kept out of the log)
 )
 
 type c18Obs struct {
@@ -42,10 +45,19 @@ type c18Obs struct {
 	ReturnUs  int64   `json:"return_us"`      // when the goroutine was seen to return (-1: never)
 	SetupErr  string  `json:"setup_err,omitempty"`
 	LatePings int     `json:"late_pings"` // pings logged after quit was closed
+	// conn kind: payloads of the conn.Write calls made by each Ping
+	PingWrites [][]string `json:"ping_writes,omitempty"`
+	ConnCloses int        `json:"conn_closes,omitempty"` // conn kind: net.Conn.Close calls
+	ErrCalls   int        `json:"err_calls,omitempty"`   // receive loop present: ErrorHandler calls
+	DiscEvents int        `json:"disc_events,omitempty"` // receive loop present: Disconnected events
+	// e2e: keep-alive bytes at the server when the session had ended (+ grace) and 10 intervals later
+	SrvAtEnd   int  `json:"srv_at_end,omitempty"`
+	SrvFinal   int  `json:"srv_final,omitempty"`
+	ConnectErr bool `json:"connect_err,omitempty"`
 }
 
 type c18In struct {
-	Kind     string   `json:"kind"`               // run phase quitfirst fail badiv tcprun tcpfail conn
+	Kind     string   `json:"kind"`               // run phase quitfirst fail badiv tcprun tcpfail conn e2e
 	IvUs     int      `json:"iv_us"`              // interval, microseconds
 	Ticks    int      `json:"ticks,omitempty"`    // run/phase/tcprun: quit is closed after Ticks intervals ...
 	PhasePct int      `json:"phase,omitempty"`    // ... plus this percentage of one interval
@@ -53,7 +65,9 @@ type c18In struct {
 	CutAfter int      `json:"cut_after"`          // tcpfail: the server drops the connection once it has read this many bytes
 	Fin      bool     `json:"fin,omitempty"`      // tcpfail: orderly close (FIN) instead of a reset
 	Slow     bool     `json:"slow,omitempty"`     // tcpfail: nobody answers the stream close, Close sits out ConnectTimeout (1 s)
-	Script   [][2]int `json:"script,omitempty"`   // conn: (n, err?) returned by the successive conn.Write calls, then (len, nil)
+	Script   [][2]int `json:"script,omitempty"`   // conn: (n, err?) returned by the successive conn.Write calls, then (len, nil); after an error every write fails
+	Recv     bool     `json:"recv,omitempty"`     // conn: a real Client receive loop blocked in Read on the same connection, sharing quit
+	End      string   `json:"end,omitempty"`      // e2e: drop (server resets) | srvclose (server sends </stream:stream>) | disconnect (Client.Disconnect)
 	Suffix   []int    `json:"suffix,omitempty"`   // model only: what the schedule goes on offering (0 tick, 1 quit)
 	Obs      *c18Obs  `json:"observed,omitempty"` // filled by Run
 }
@@ -66,7 +80,7 @@ func (c18) ID() string    { return "C18" }
 func (c18) RunFn() string { return "run_C18" }
 func (c18) Workers() int  { return 8 }
 func (c18) Rule() string {
-	return "keepalive goroutine (VerifKeepalive) on a recording stub transport, intervals 1-10 ms: run for T then close quit; quit closed at a random phase of the ticker (0-5 intervals + 0-99 %, incl. exactly on a tick); quit closed before the goroutine starts; Ping failing at the k-th call for every k in 1..10 x interval; interval 0 / negative; and on the real XMPPTransport over loopback TCP (scripted server records every byte after the stream header): healthy run, server resets / closes the connection after reading n bytes (Close waiting out its timeout or answered at once). The model receives the observed schedule (successful pings before the terminating event, event kind) plus a random continuation and must reproduce the ordered log ping-ok/ping-failed/Close/return and the wire bytes; distinct = scenario parameters; non-trivial = at least 2 pings before the terminating event"
+	return "keepalive goroutine (VerifKeepalive) on a recording stub transport, intervals 1-10 ms: run for T then close quit; quit closed at a random phase of the ticker (0-5 intervals + 0-99 %, incl. exactly on a tick); quit closed before the goroutine starts; Ping failing at the k-th call for every k in 1..10 x interval; interval 0 / negative. Real XMPPTransport over loopback TCP (scripted server records every byte after the stream header): healthy run, server resets / closes the connection after reading n bytes (Close waiting out its timeout or answered at once). Real XMPPTransport over a scripted net.Conn: every conn.Write / conn.Close call, scripted write results (short counts, errors; after an error the connection stays dead for writing while reads block), with and without a real Client receive loop blocked on the same connection and sharing quit: the connection must get closed after the failed keep-alive and the loss be reported (ErrorHandler, Disconnected). End to end: real Client.Connect (KeepaliveInterval 2-5 ms) against the scripted XMPP server (SASL PLAIN + bind), session up for T, then ended by a server reset / the server's </stream:stream> / Client.Disconnect at a random phase; Ping and Close calls logged by a wrapper around the client's transport, keep-alive bytes counted at the server; after the Disconnected event + grace nothing may be pinged for 10 more intervals. The model receives the observed schedule (successful pings before the terminating event, how the run ended) plus a random continuation and must reproduce the ordered log ping-ok/ping-failed/Close/loop-over, the wire bytes, the calls on the connection and the reporting of the loss; distinct = scenario parameters; non-trivial = at least 2 pings before the terminating event"
 }
 
 func c18Suffix(r *rand.Rand) []int {
@@ -180,6 +194,27 @@ func (c18) Gen(r *rand.Rand, tier string) []interface{} {
 			}
 			add(&c18In{Kind: "conn", IvUs: 1000 * (1 + r.Intn(3)), Ticks: 4 + r.Intn(12), Script: sc})
 		}
+		// the same with a real receive loop blocked in Read on the connection: the failed
+		// keep-alive must close the connection so that the loss is reported
+		for _, b := range bad {
+			for _, k := range []int{1, 2 + r.Intn(6)} {
+				sc := make([][2]int, 0, k)
+				for j := 1; j < k; j++ {
+					sc = append(sc, [2]int{1, 0})
+				}
+				add(&c18In{Kind: "conn", Recv: true, IvUs: 1000 * (1 + r.Intn(3)), Script: append(sc, b)})
+			}
+		}
+	}
+	// end to end through Client.Connect: the session ends in each way, at a random phase
+	ne2e := 4
+	if thorough {
+		ne2e = 40
+	}
+	for i := 0; i < ne2e; i++ {
+		for _, end := range []string{"drop", "srvclose", "disconnect"} {
+			add(&c18In{Kind: "e2e", End: end, IvUs: 1000 * (2 + r.Intn(4)), Ticks: 6 + r.Intn(10), PhasePct: r.Intn(100)})
+		}
 	}
 	return out
 }
@@ -245,6 +280,7 @@ type kaReal struct {
 	xmpp.Transport
 	rec  *kaRec
 	slow bool
+	attr bool        // e2e: tell the keep-alive loop's Close calls from everybody else's
 	fc   *kaFakeConn // conn kind: the scripted connection underneath
 	mu   sync.Mutex
 	pw   [][]string // conn kind: payloads of the conn.Write calls made by each Ping
@@ -269,7 +305,14 @@ func (t *kaReal) Ping() error {
 	return err
 }
 func (t *kaReal) Close() error {
-	t.rec.add(kaClose)
+	code := kaClose
+	if t.attr {
+		buf := make([]byte, 8192)
+		if !strings.Contains(string(buf[:runtime.Stack(buf, false)]), "gosrc.io/xmpp.keepalive(") {
+			code = kaCloseOther
+		}
+	}
+	t.rec.add(code)
 	if !t.slow {
 		// what the receive loop does when the server's </stream:stream> arrives;
 		// spares XMPPTransport.Close its ConnectTimeout wait
@@ -323,6 +366,7 @@ func c18Summarise(evs []kaEv, start time.Time, closeAt time.Time, closed bool, a
 			} else {
 				term = true
 			}
+		case kaCloseOther:
 		case kaReturn:
 			if o.ReturnUs < 0 {
 				o.ReturnUs = e.at.Sub(start).Microseconds()
@@ -336,12 +380,16 @@ func c18Summarise(evs []kaEv, start time.Time, closeAt time.Time, closed bool, a
 }
 
 func kaEvsSx(evs []kaEv) Sx {
-	xs := make([]Sx, len(evs))
-	for i, e := range evs {
-		xs[i] = Zi(e.code)
+	xs := make([]Sx, 0, len(evs))
+	for _, e := range evs {
+		if e.code != kaCloseOther {
+			xs = append(xs, Zi(e.code))
+		}
 	}
 	return LS(xs)
 }
+
+var kaNoReport = L(Z(0), Z(0))
 
 func kaSettle(iv time.Duration) {
 	d := 3 * iv
@@ -360,6 +408,8 @@ func (c18) Run(inp interface{}) Sx {
 			obs, o = runKeepaliveTCP(in, attempt)
 		} else if in.Kind == "conn" {
 			obs, o = runKeepaliveConn(in, attempt)
+		} else if in.Kind == "e2e" {
+			obs, o = runKeepaliveE2E(in, attempt)
 		} else {
 			obs, o = runKeepaliveStub(in, attempt)
 		}
@@ -377,7 +427,7 @@ func (c18) Run(inp interface{}) Sx {
 // tooFewPings: fewer than a third of the nominal number of keep-alives.
 func (in *c18In) tooFewPings() bool {
 	switch in.Kind {
-	case "run", "phase", "tcprun", "conn":
+	case "run", "phase", "tcprun", "conn", "e2e":
 		return in.Obs != nil && in.Obs.SetupErr == "" && in.nominal() >= 3 && in.Obs.NSucc < in.nominal()/3
 	}
 	return false
@@ -415,7 +465,7 @@ func runKeepaliveStub(in *c18In, attempt int) (Sx, *c18Obs) {
 	if !closed {
 		close(quit) // let a loop that is wrongly still alive go away
 	}
-	return L(kaEvsSx(evs), SBytes(""), L()), c18Summarise(evs, start, closeAt, closed, attempt)
+	return L(kaEvsSx(evs), SBytes(""), L(), kaNoReport), c18Summarise(evs, start, closeAt, closed, attempt)
 }
 
 // ---- scripted TCP server: answers the stream header, then records every byte ----
@@ -512,7 +562,7 @@ func (s *kaServer) received() []byte {
 func runKeepaliveTCP(in *c18In, attempt int) (Sx, *c18Obs) {
 	iv := time.Duration(in.IvUs) * time.Microsecond
 	setupErr := func(msg string) (Sx, *c18Obs) {
-		return L(L(Z(-2)), SBytes(msg), L()), &c18Obs{Attempts: attempt, SetupErr: msg, CloseUs: -1, ReturnUs: -1}
+		return L(L(Z(-2)), SBytes(msg), L(), kaNoReport), &c18Obs{Attempts: attempt, SetupErr: msg, CloseUs: -1, ReturnUs: -1}
 	}
 	cut := -1
 	if in.Kind == "tcpfail" {
@@ -577,16 +627,20 @@ func runKeepaliveTCP(in *c18In, attempt int) (Sx, *c18Obs) {
 		go inner.ReceivedStreamClose()
 		inner.Close()
 	}
-	return L(kaEvsSx(evs), SBytes(string(got)), L()), o
+	return L(kaEvsSx(evs), SBytes(string(got)), L(), kaNoReport), o
 }
 
 // ---- scripted net.Conn under the real XMPPTransport ----
 
 type kaFakeConn struct {
-	mu     sync.Mutex
-	script [][2]int
-	writes []string
-	closes int
+	mu        sync.Mutex
+	script    [][2]int
+	writes    []string
+	log       []Sx // every Write (0, data) and Close (1), in order
+	dead      bool // a write has failed: every later write fails as well
+	closes    int
+	blockRead bool // reads block until the connection is closed locally
+	closedCh  chan struct{}
 }
 type kaAddr struct{}
 
@@ -598,17 +652,43 @@ func (c *kaFakeConn) Write(p []byte) (int, error) {
 	defer c.mu.Unlock()
 	k := len(c.writes)
 	c.writes = append(c.writes, string(p))
+	c.log = append(c.log, L(Z(0), SBytes(string(p))))
+	if c.dead {
+		return 0, errors.New("fake conn: broken pipe")
+	}
 	if k < len(c.script) {
 		var err error
 		if c.script[k][1] != 0 {
 			err = errors.New("fake conn: write failed")
+			c.dead = true
 		}
 		return c.script[k][0], err
 	}
 	return len(p), nil
 }
-func (c *kaFakeConn) Read(p []byte) (int, error)       { return 0, errors.New("fake conn: nothing to read") }
-func (c *kaFakeConn) Close() error                     { c.mu.Lock(); c.closes++; c.mu.Unlock(); return nil }
+func (c *kaFakeConn) Read(p []byte) (int, error) {
+	if c.blockRead {
+		<-c.closedCh
+		return 0, errors.New("fake conn: use of closed connection")
+	}
+	return 0, errors.New("fake conn: nothing to read")
+}
+func (c *kaFakeConn) Close() error {
+	c.mu.Lock()
+	c.closes++
+	c.log = append(c.log, L(Z(1)))
+	first := c.closes == 1
+	c.mu.Unlock()
+	if first {
+		close(c.closedCh)
+	}
+	return nil
+}
+func (c *kaFakeConn) snapshot() ([]Sx, int) {
+	c.mu.Lock()
+	defer c.mu.Unlock()
+	return append([]Sx{}, c.log...), c.closes
+}
 func (c *kaFakeConn) LocalAddr() net.Addr              { return kaAddr{} }
 func (c *kaFakeConn) RemoteAddr() net.Addr             { return kaAddr{} }
 func (c *kaFakeConn) SetDeadline(time.Time) error      { return nil }
@@ -634,11 +714,39 @@ func (in *c18In) scriptFailAt() int {
 
 func runKeepaliveConn(in *c18In, attempt int) (Sx, *c18Obs) {
 	iv := time.Duration(in.IvUs) * time.Microsecond
-	fc := &kaFakeConn{script: in.Script}
+	fc := &kaFakeConn{script: in.Script, blockRead: in.Recv, closedCh: make(chan struct{})}
 	rec := &kaRec{}
-	// ConnectTimeout 0: XMPPTransport.Close does not wait for the server's stream close
-	tr := &kaReal{Transport: xmpp.VerifXMPPTransportOnConn(fc, 0), rec: rec, slow: true, fc: fc}
+	// the transport as XMPPTransport.Connect wires it, already connected over fc;
+	// ConnectTimeout 0: Close does not wait for the server's closing tag
+	tr := &kaReal{Transport: xmpp.VerifXMPPTransportLoggedOnConn(fc, nil, 0), rec: rec, slow: true, fc: fc}
 	quit := make(chan struct{})
+	var mu sync.Mutex
+	errCalls, discEvents := 0, 0
+	recvDone := make(chan struct{})
+	if in.Recv {
+		// the tail of Client.Connect: a receive loop on the same transport, owning quit
+		cfg := &xmpp.Config{TransportConfiguration: xmpp.TransportConfiguration{Address: "127.0.0.1:1"}, Jid: "u@localhost", Credential: xmpp.Password("p"), Insecure: true}
+		client, err := xmpp.NewClient(cfg, xmpp.NewRouter(), func(error) { mu.Lock(); errCalls++; mu.Unlock() })
+		if err != nil {
+			return L(L(Z(-2)), SBytes("newclient"), L(), kaNoReport), &c18Obs{Attempts: attempt, SetupErr: err.Error(), CloseUs: -1, ReturnUs: -1}
+		}
+		client.SetHandler(func(e xmpp.Event) error {
+			if xmpp.VerifEventState(e) == xmpp.StateDisconnected {
+				mu.Lock()
+				discEvents++
+				mu.Unlock()
+			}
+			return nil
+		})
+		xmpp.VerifSetTransport(client, tr)
+		xmpp.VerifSetSession(client, xmpp.SMState{})
+		go func() {
+			defer close(recvDone)
+			xmpp.VerifRecv(client, quit)
+		}()
+	} else {
+		close(recvDone)
+	}
 	closed := false
 	var closeAt time.Time
 	start := time.Now()
@@ -650,23 +758,138 @@ func runKeepaliveConn(in *c18In, attempt int) (Sx, *c18Obs) {
 		kaWaitDone(done, 5*time.Second)
 	} else {
 		kaWaitDone(done, 5*time.Second+40*time.Duration(len(in.Script))*iv)
+		// the receive loop's blocked Read fails once the connection is closed: bounded wait
+		kaWaitDone(recvDone, 2*time.Second)
 	}
 	kaSettle(iv)
 	evs := rec.snapshot()
-	if !closed {
+	clog, closes := fc.snapshot()
+	mu.Lock()
+	o := c18Summarise(evs, start, closeAt, closed, attempt)
+	o.ConnCloses, o.ErrCalls, o.DiscEvents = closes, errCalls, discEvents
+	mu.Unlock()
+	if in.Recv {
+		fc.Close() // releases a receive loop that is still blocked; it closes quit itself
+	} else if !closed {
 		close(quit)
 	}
 	tr.mu.Lock()
-	pws := make([]Sx, len(tr.pw))
-	for i, ws := range tr.pw {
-		xs := make([]Sx, len(ws))
-		for j, w := range ws {
-			xs[j] = SBytes(w)
-		}
-		pws[i] = LS(xs)
+	for _, ws := range tr.pw {
+		o.PingWrites = append(o.PingWrites, append([]string{}, ws...))
 	}
 	tr.mu.Unlock()
-	return L(kaEvsSx(evs), SBytes(""), LS(pws)), c18Summarise(evs, start, closeAt, closed, attempt)
+	return L(kaEvsSx(evs), SBytes(""), LS(clog), L(Zi(o.ErrCalls), Zi(o.DiscEvents))), o
+}
+
+// ---- end to end: a real Client.Connect session against the scripted XMPP server ----
+
+func kaKeepaliveBytes(clear []byte) (wire []byte, ok bool) {
+	i := bytes.Index(clear, []byte("<presence"))
+	if i < 0 {
+		return nil, false
+	}
+	j := bytes.IndexByte(clear[i:], '>')
+	if j < 0 {
+		return nil, false
+	}
+	tail := clear[i+j+1:]
+	return bytes.ReplaceAll(tail, []byte("</stream:stream>"), nil), true
+}
+
+func runKeepaliveE2E(in *c18In, attempt int) (Sx, *c18Obs) {
+	iv := time.Duration(in.IvUs) * time.Microsecond
+	setupErr := func(msg string) (Sx, *c18Obs) {
+		return L(L(Z(-2)), SBytes(msg), L(), kaNoReport), &c18Obs{Attempts: attempt, SetupErr: msg, CloseUs: -1, ReturnUs: -1}
+	}
+	groups := [][]sItem{
+		{hdrItem(), {T: "features", Mechs: []string{"PLAIN"}}},
+		{{T: "success"}},
+		{hdrItem(), {T: "features", Bind: true}},
+		{{T: "iq", Typ: "result", ID: "b", Pl: "bind", Jid: "user@" + srvDomain + "/r"}},
+	}
+	srv, err := startScriptedServer([]connScript{{Groups: groups}})
+	if err != nil {
+		return setupErr("listen: " + err.Error())
+	}
+	defer srv.stop()
+	cfg := &xmpp.Config{
+		TransportConfiguration: xmpp.TransportConfiguration{Address: srv.addr(), Domain: srvDomain, ConnectTimeout: 1},
+		Jid:                    "user@" + srvDomain, Credential: xmpp.Password("secret"), Insecure: true,
+		ConnectTimeout: 1, KeepaliveInterval: iv,
+	}
+	var mu sync.Mutex
+	errCalls, discEvents := 0, 0
+	discCh := make(chan struct{}, 8)
+	client, err := xmpp.NewClient(cfg, xmpp.NewRouter(), func(error) { mu.Lock(); errCalls++; mu.Unlock() })
+	if err != nil {
+		return setupErr("newclient: " + err.Error())
+	}
+	client.SetHandler(func(e xmpp.Event) error {
+		if xmpp.VerifEventState(e) == xmpp.StateDisconnected {
+			mu.Lock()
+			discEvents++
+			mu.Unlock()
+			select {
+			case discCh <- struct{}{}:
+			default:
+			}
+		}
+		return nil
+	})
+	rec := &kaRec{}
+	tr := &kaReal{Transport: xmpp.VerifTransport(client), rec: rec, slow: true, attr: true}
+	xmpp.VerifSetTransport(client, tr)
+	start := time.Now() // before the ticker exists: the j-th ping cannot come before start + j intervals
+	if err := client.Connect(); err != nil {
+		o := &c18Obs{Attempts: attempt, SetupErr: "connect: " + err.Error(), CloseUs: -1, ReturnUs: -1, ConnectErr: true}
+		return L(L(Z(-2)), SBytes("connect"), L(), kaNoReport), o
+	}
+	// the session is up
+	time.Sleep(time.Duration(in.Ticks)*iv + time.Duration(in.PhasePct)*iv/100)
+	closeAt := time.Now()
+	switch in.End {
+	case "drop":
+		srv.drop(0)
+	case "srvclose":
+		srv.push(0, "</stream:stream>")
+	default:
+		go client.Disconnect()
+	}
+	// the session has ended when the client says so
+	select {
+	case <-discCh:
+	case <-time.After(5 * time.Second):
+	}
+	grace := 8 * iv
+	if grace < 40*time.Millisecond {
+		grace = 40 * time.Millisecond
+	}
+	time.Sleep(grace)
+	rec.add(kaReturn) // from here on the keep-alive loop must be gone
+	atEnd := 0
+	if logs := srv.snapshot(); len(logs) > 0 {
+		w, _ := kaKeepaliveBytes(logs[0].ClearBy)
+		atEnd = len(w)
+	}
+	window := 10 * iv
+	if window < 30*time.Millisecond {
+		window = 30 * time.Millisecond
+	}
+	time.Sleep(window)
+	evs := rec.snapshot()
+	var wire []byte
+	if logs := srv.snapshot(); len(logs) > 0 {
+		wire, _ = kaKeepaliveBytes(logs[0].ClearBy)
+	}
+	mu.Lock()
+	o := c18Summarise(evs, start, closeAt, true, attempt)
+	o.ErrCalls, o.DiscEvents = errCalls, discEvents
+	mu.Unlock()
+	o.SrvN, o.SrvAtEnd, o.SrvFinal = len(wire), atEnd, len(wire)
+	if in.End == "srvclose" {
+		go client.Disconnect() // the transport is still open: let it go (up to ConnectTimeout, in the background)
+	}
+	return L(kaEvsSx(evs), SBytes(string(wire)), L(), L(Zi(o.ErrCalls), Zi(o.DiscEvents))), o
 }
 
 // ---- model input ----
@@ -690,11 +913,23 @@ func (c18) Input(inp interface{}) Sx {
 			term = 1 // the model finds the failing write in the script by itself
 		}
 	}
-	mode := 0
+	mode, lossy, end := 0, false, 0
 	if in.tcp() {
-		mode = 1
+		mode, lossy = 1, in.Kind == "tcpfail"
 	} else if in.Kind == "conn" {
 		mode = 2
+		if in.Recv {
+			end = 1
+		}
+	} else if in.Kind == "e2e" {
+		// the server stops reading when it resets the connection or has answered the client's closing tag
+		mode, lossy, end = 1, in.End != "srvclose", 2
+		if in.End == "drop" {
+			end = 1
+		}
+		if len(o.PingUs) > o.NSucc {
+			term, failAt = 1, o.NSucc+1 // a keep-alive hit the dying connection before quit was seen: observed
+		}
 	}
 	script := make([]Sx, len(in.Script))
 	for i, w := range in.Script {
@@ -704,7 +939,7 @@ func (c18) Input(inp interface{}) Sx {
 	for i, s := range in.Suffix {
 		suf[i] = Zi(s & 1)
 	}
-	return L(Zi(in.IvUs), Zi(term), Zi(failAt), Zi(o.NSucc), LS(suf), Zi(mode), Zi(o.SrvN), LS(script))
+	return L(Zi(in.IvUs), Zi(term), Zi(failAt), Zi(o.NSucc), LS(suf), Zi(mode), B(lossy), Zi(o.SrvN), LS(script), Zi(end))
 }
 
 // ---- direct oracle: the property's own clauses on the observed log ----
@@ -712,7 +947,7 @@ func (c18) Input(inp interface{}) Sx {
 func (c18) Oracle(inp interface{}, obs Sx) (string, string) {
 	in := inp.(*c18In)
 	o := in.Obs
-	if o == nil || len(obs.L) != 3 {
+	if o == nil || len(obs.L) != 4 {
 		return "no observation: " + obs.String(), "shape"
 	}
 	if o.SetupErr != "" {
@@ -748,6 +983,9 @@ func (c18) Oracle(inp interface{}, obs Sx) (string, string) {
 	if firstRet >= 0 && firstRet != len(codes)-1 {
 		for _, c := range codes[firstRet+1:] {
 			if c == kaPingOk || c == kaPingFail {
+				if in.Kind == "e2e" {
+					return fmt.Sprintf("session ended by %s, Disconnected reported, yet keep-alives went on (log %v: 3 = session over + grace)", in.End, codes), "ping-after-session-end"
+				}
 				return fmt.Sprintf("keep-alive sent after the goroutine had returned (log %v)", codes), "ping-after-return"
 			}
 		}
@@ -781,6 +1019,31 @@ func (c18) Oracle(inp interface{}, obs Sx) (string, string) {
 		}
 	}
 	switch in.Kind {
+	case "e2e":
+		if o.DiscEvents < 1 {
+			return "session ended by " + in.End + " but no Disconnected event within 5 s", "loss-not-reported"
+		}
+		if in.End == "drop" && o.ErrCalls < 1 {
+			return "connection reset by the server but the error callback never ran", "loss-not-reported"
+		}
+		if o.SrvFinal != o.SrvAtEnd {
+			return fmt.Sprintf("session ended by %s: the server read %d more keep-alive bytes after the end", in.End, o.SrvFinal-o.SrvAtEnd), "ping-after-session-end"
+		}
+		if int64(pings) > o.ReturnUs/iv+1 {
+			return fmt.Sprintf("%d keep-alives in %d us at interval %d us", pings, o.ReturnUs, iv), "too-many-pings"
+		}
+		if in.tooFewPings() {
+			return fmt.Sprintf("session up for %d intervals, %d keep-alives (3 attempts)", in.nominal(), pings), "too-few-pings"
+		}
+		wire := bytesOf(obs.L[1])
+		for _, b := range wire {
+			if b != '\n' {
+				return fmt.Sprintf("after the initial presence the server read %q", string(wire)), "ping-content"
+			}
+		}
+		if len(wire) > pings || (in.End == "srvclose" && len(wire) != cnt[kaPingOk]) {
+			return fmt.Sprintf("%d successful pings, server read %d keep-alive bytes", cnt[kaPingOk], len(wire)), "wire-count"
+		}
 	case "run", "phase", "quitfirst", "tcprun":
 		if cnt[kaPingFail] != 0 {
 			return "a keep-alive failed on a healthy transport", "unexpected-failure"
@@ -812,12 +1075,12 @@ func (c18) Oracle(inp interface{}, obs Sx) (string, string) {
 		}
 	case "conn":
 		// every Ping: exactly one conn.Write call, of exactly the byte "\n"
-		for i, pw := range obs.L[2].L {
-			if len(pw.L) != 1 || string(bytesOf(pw.L[0])) != "\n" {
-				return fmt.Sprintf("ping %d made the conn.Write calls %s", i+1, pw.String()), "ping-content"
+		for i, pw := range o.PingWrites {
+			if len(pw) != 1 || pw[0] != "\n" {
+				return fmt.Sprintf("ping %d made the conn.Write calls %q", i+1, pw), "ping-content"
 			}
 		}
-		if len(obs.L[2].L) != pings {
+		if len(o.PingWrites) != pings {
 			return "Ping calls and recorded write groups differ", "shape"
 		}
 		// the keep-alive is not on the wire if Write reported an error or a count other than 1
@@ -825,7 +1088,17 @@ func (c18) Oracle(inp interface{}, obs Sx) (string, string) {
 			if firstFail < 0 || cnt[kaPingOk] != k-1 {
 				return fmt.Sprintf("conn.Write call %d returned (%d, err=%v): %d pings reported success, failure seen: %v", k, in.Script[k-1][0], in.Script[k-1][1] != 0, cnt[kaPingOk], firstFail >= 0), "unwritten-ping-not-detected"
 			}
+			// ... and then the connection must really be closed, so that a reader blocked on it notices
+			if o.ConnCloses < 1 {
+				return fmt.Sprintf("keep-alive %d could not be written (conn.Write returned (%d, err=%v)) but net.Conn.Close was never called: the dead connection stays open", k, in.Script[k-1][0], in.Script[k-1][1] != 0), "dead-connection-not-closed"
+			}
+			if in.Recv && (o.ErrCalls < 1 || o.DiscEvents < 1) {
+				return fmt.Sprintf("keep-alive %d could not be written; receive loop blocked on the connection: %d error callbacks, %d Disconnected events", k, o.ErrCalls, o.DiscEvents), "loss-not-reported"
+			}
 		} else {
+			if o.ConnCloses != 0 {
+				return "connection closed although no keep-alive failed", "close-without-failure"
+			}
 			if cnt[kaPingFail] != 0 {
 				return "a keep-alive failed on a healthy connection", "unexpected-failure"
 			}
@@ -880,6 +1153,12 @@ func (c18) Key(inp interface{}) (string, bool) {
 			hist("ping-chosen-after-quit-closed")
 		}
 	}
-	k := fmt.Sprintf("%s iv%d t%d p%d k%d cut%d fin%v slow%v", in.Kind, in.IvUs, in.Ticks, in.PhasePct, in.FailAt, in.CutAfter, in.Fin, in.Slow)
+	if in.Kind == "e2e" {
+		hist("e2e-end:" + in.End)
+	}
+	if in.Kind == "conn" && in.Recv {
+		hist("conn-with-receive-loop")
+	}
+	k := fmt.Sprintf("%s iv%d t%d p%d k%d cut%d fin%v slow%v %v recv%v %s", in.Kind, in.IvUs, in.Ticks, in.PhasePct, in.FailAt, in.CutAfter, in.Fin, in.Slow, in.Script, in.Recv, in.End)
 	return k, n >= 2
 }
